@@ -37,7 +37,13 @@ Definition o_children (t : otree) := match t with ONode _ _ _ _ c => c end.
 
 Inductive fres := OutOfFuel | Done (r : option otree).
 
-(* filterNode(src, cmdSrc).  One unit of fuel per call, as one Go stack frame per call.
+(* filterNode(src, cmdSrc) as plain recursion.  One unit of fuel per call, as one Go stack frame per call.
+   Since commit 1985bf6 (repair of finding C23-1) the Go code memoises the copy of every source node
+   (filterNodeSeen); on graphs without a cycle through children/redirect edges the copy it returns,
+   read as a tree (shared copies expanded), is exactly this function's result - which is what the
+   harness observes and the judge compares.  On cyclic graphs this function is the code BEFORE the
+   repair (it runs out of every fuel); today's code terminates there and the harness checks that in
+   child processes.
    - a RootCommandNode is copied without a CanUse check and without a redirect;
    - any other node the player may not use yields nil;
    - otherwise: CreateBuilder() (kind, executor), Requires(true), the redirect target is
